@@ -672,24 +672,43 @@ def overrides_without_base_call(ctx, cls):
 
 
 def bypassed_base_calls(ctx, cls):
-    """[(method, call)] a `super().m(...)` call that is a top-level statement of the override m - so the author means it to
-    run always - but that some normal path does not reach (an early return added in front of it)"""
+    """[(method, call)] a `super().m(...)` statement of the override m that is skipped by a bare `return`: the call is a top-level
+    statement with an early `return` in front of it, or - the same thing in nested form - it heads the other branch of an `if` whose
+    first branch is nothing but `return`.  (A base call under a condition whose other branch does something else, or simply falls
+    through, is a deliberate conditional call and is not reported.)"""
+    def is_super_stmt(st, mname):
+        if isinstance(st, (ast.Expr, ast.Assign, ast.AnnAssign, ast.Return)) and getattr(st, "value", None) is not None:
+            for x in ast.walk(st.value):
+                if isinstance(x, ast.Call) and fn_name(x) == mname and isinstance(x.func, ast.Attribute) and isinstance(x.func.value, ast.Call) \
+                        and fn_name(x.func.value) == "super":
+                    return x
+        return None
+
+    def bare_return(body):
+        return len(body) == 1 and isinstance(body[0], ast.Return) and (body[0].value is None or (isinstance(body[0].value, ast.Constant) and body[0].value.value is None))
     out = []
     for mname, m in cls.methods.items():
-        tops = []
-        for st in m.node.body:
-            if isinstance(st, (ast.Expr, ast.Assign, ast.AnnAssign, ast.Return)) and getattr(st, "value", None) is not None:
-                for x in ast.walk(st.value):
-                    if isinstance(x, ast.Call) and fn_name(x) == mname and isinstance(x.func, ast.Attribute) and isinstance(x.func.value, ast.Call) \
-                            and fn_name(x.func.value) == "super":
-                        tops.append((st, x))
-        if not tops:
-            continue
-        cm = cfg_of(m)
-        marks = {nd.id for nd in cm.nodes if nd.kind == "stmt" and any(nd.ast is st for st, _ in tops)}
-        if marks and cm.path([cm.entry], cm.exit, deleted=marks, skip_labels=("exc",)) is not None:
-            out.append((m, tops[0][1]))
+        hit = None
+
+        def scan(body, guarded_by_bail):
+            nonlocal hit
+            bailed = guarded_by_bail
+            for st in body:
+                c = is_super_stmt(st, mname)
+                if c is not None and bailed:
+                    hit = hit or c
+                if isinstance(st, ast.If):
+                    if bare_return(st.body):
+                        scan(st.orelse, True)
+                        bailed = True       # what follows the `if` is reached only past the bail-out too
+                    elif bare_return(st.orelse):
+                        scan(st.body, True)
+                        bailed = True
+        scan(m.node.body, False)
+        if hit is not None:
+            out.append((m, hit))
     return out
+
 
 # ------------------------------------------------------------------ an argument that names another parameter of its callee
 ARG_NAME_OK = {
